@@ -489,7 +489,7 @@ pub fn run_check<E: Engine>(engine: &E, cfg: &Cfg) -> Outcome {
         // Does the run fail on its own (in a fresh thread), or only after the runs that preceded it in
         // its worker thread (state carried from one application instance to the next)?
         let mut history: Vec<u64> = vec![];
-        if engine.replay_attempts() <= 1 && fails_same(engine, &case, &v0.property, &v0.class).is_none() {
+        if fails_same(engine, &case, &v0.property, &v0.class).is_none() {
             let w = nworkers as u64;
             let preds: Vec<u64> = (0..).map(|k| (r.idx % w) + k * w).take_while(|i| *i < r.idx).collect();
             if fails_same_after(engine, cfg, &preds, &case, &v0.property, &v0.class).is_some() {
